@@ -145,6 +145,8 @@ def main():
             ok = False
             try:
                 src = open(os.path.join(REPO, path)).read()
+                # guarded verification hooks vanish without the build tag: the patterns describe the code without them
+                src = re.sub(r"[ \t]*if verifEnabled && [^{]*\{[^{}]*\}\n", "", src)
                 body = func_body(src, sig)
                 if body is not None:
                     body = strip_comments(body)
